@@ -548,6 +548,19 @@ func runC02(c *Ctx) {
 			kind = "mutated2"
 		case 7:
 			base := r.Doc(&opts)
+			if r.Chance(1, 2) {
+				// string contents are not judged by the lower bound: a byte that is not valid UTF-8 inside a
+				// literal sends the validating configurations through their correction paths first; the cut
+				// document is still structurally malformed and must be rejected
+				if qs := strings.Index(base, `"`); qs >= 0 {
+					if k := qs + 1 + r.Intn(len(base)-qs); k < len(base) && base[k] != '"' && base[k] != '\\' && base[k-1] != '\\' && base[k] >= 0x20 {
+						inStr := strings.Count(base[:k], `"`)-strings.Count(base[:k], `\\"`) // rough: an odd count means inside a literal
+						if inStr%2 == 1 {
+							base = base[:k] + "\xff" + base[k+1:]
+						}
+					}
+				}
+			}
 			doc = base[:r.Intn(len(base)+1)]
 			kind = "truncated"
 		case 8:
